@@ -710,38 +710,58 @@ theorem decode_chunks (fx : Fix) : ∀ (specs : List Spec) (vals : List Val) (cs
 /-! ## run-level statements used by Props/C09 -/
 open Uft.Gen.Layout
 
+theorem parse_accepted (fx : Fix) (specs : List Spec) (vals : List Val) (m0 : Mem)
+    (payload rest : List Byte)
+    (hlen : vals.length = specs.length) (hwf : ∀ sp ∈ specs, WF sp) (hv : ∀ v ∈ vals, ValOk v)
+    (h : accepted fx specs vals m0 = some payload) :
+    readArgs specs (payload ++ padTo8 payload.length ++ rest) = some (payload, rest) ∧
+    decodeVals specs payload = (specs.zip vals).map (fun p => obs fx p.1 p.2) := by
+  unfold accepted at h
+  simp only at h
+  split at h
+  · cases h
+  · rename_i htot
+    injection h with h
+    obtain ⟨cs, h1, h2⟩ := packRun_chunks fx specs vals (St.init m0) hlen hv (Nat.zero_le _) (by omega)
+    have hp : payload = cs := by
+      rw [← h]; unfold St.payload; rw [h1]; simp [St.init, Mem.rd]
+    subst hp
+    refine ⟨?_, decode_chunks fx specs vals payload hwf h2⟩
+    unfold readArgs
+    rw [List.append_assoc, readLoop_chunks fx specs vals payload [] (padTo8 payload.length ++ rest) hwf h2 rfl]
+    simp only [List.nil_append]
+    congr 2
+    have hpl : (padTo8 payload.length).length = align8 payload.length - payload.length := by
+      simp [padTo8]
+    split
+    · rw [List.drop_left']
+      rw [hpl]; unfold align8; omega
+    · have : padTo8 payload.length = [] := by
+        apply List.eq_nil_of_length_eq_zero
+        rw [hpl]; unfold align8; omega
+      rw [this]; rfl
+
+theorem accepted_of_ok {fx : Fix} {specs : List Spec} {vals : List Val} {m0 : Mem} {p : List Byte}
+    (h : packArgs fx specs vals m0 = .ok p) : accepted fx specs vals m0 = some p := by
+  unfold packArgs at h
+  unfold accepted
+  simp only at h ⊢
+  split at h
+  · cases h
+  · split at h
+    · cases h
+    · rename_i _ ht
+      rw [if_neg ht]
+      injection h with h
+      rw [h]
+
 theorem parse_pack (fx : Fix) (specs : List Spec) (vals : List Val) (m0 : Mem)
     (payload rest : List Byte)
     (hlen : vals.length = specs.length) (hwf : ∀ sp ∈ specs, WF sp) (hv : ∀ v ∈ vals, ValOk v)
     (h : packArgs fx specs vals m0 = .ok payload) :
     readArgs specs (payload ++ padTo8 payload.length ++ rest) = some (payload, rest) ∧
-    decodeVals specs payload = (specs.zip vals).map (fun p => obs fx p.1 p.2) := by
-  unfold packArgs at h
-  simp only at h
-  split at h
-  · cases h
-  · split at h
-    · cases h
-    · rename_i _ htot
-      injection h with h
-      obtain ⟨cs, h1, h2⟩ := packRun_chunks fx specs vals (St.init m0) hlen hv (Nat.zero_le _) (by omega)
-      have hp : payload = cs := by
-        rw [← h]; unfold St.payload; rw [h1]; simp [St.init, Mem.rd]
-      subst hp
-      refine ⟨?_, decode_chunks fx specs vals payload hwf h2⟩
-      unfold readArgs
-      rw [List.append_assoc, readLoop_chunks fx specs vals payload [] (padTo8 payload.length ++ rest) hwf h2 rfl]
-      simp only [List.nil_append]
-      congr 2
-      have hpl : (padTo8 payload.length).length = align8 payload.length - payload.length := by
-        simp [padTo8]
-      split
-      · rw [List.drop_left']
-        rw [hpl]; unfold align8; omega
-      · have : padTo8 payload.length = [] := by
-          apply List.eq_nil_of_length_eq_zero
-          rw [hpl]; unfold align8; omega
-        rw [this]; rfl
+    decodeVals specs payload = (specs.zip vals).map (fun p => obs fx p.1 p.2) :=
+  parse_accepted fx specs vals m0 payload rest hlen hwf hv (accepted_of_ok h)
 
 
 /-- one recorded ENTRY/EXIT with its fetched values -/
@@ -758,11 +778,8 @@ structure Call where
 def Call.chosen (c : Call) : List Spec := Uft.Argbuf.sel (c.type == 1) c.specs
 
 
-/-- save_argument / save_retval: too big (or out of bounds) data is dropped, the record has no payload -/
-def Call.payload (fx : Fix) (c : Call) : Option (List Byte) :=
-  match packArgs fx c.chosen c.vals c.m0 with
-  | .ok p => some p
-  | .error _ => none
+/-- save_argument / save_retval: data that is too big is dropped, the record has no payload -/
+def Call.payload (fx : Fix) (c : Call) : Option (List Byte) := accepted fx c.chosen c.vals c.m0
 
 
 def Call.bytes (fx : Fix) (c : Call) : List Byte := recordBytes c.time c.type c.depth c.addr (c.payload fx)
@@ -854,12 +871,7 @@ theorem decode_step (fx : Fix) (specOf : Nat → List Spec) (c : Call) (hok : Ca
     simp only [Option.isSome_some, if_true]
     have hnot : ¬ c.type ≥ 2 := by omega
     rw [if_neg hnot, hspec]
-    have hpk : packArgs fx c.chosen c.vals c.m0 = .ok p := by
-      unfold Call.payload at hp
-      split at hp
-      · rename_i q hq; injection hp with hp; rw [hq, hp]
-      · cases hp
-    obtain ⟨r1, _⟩ := parse_pack fx c.chosen c.vals c.m0 p tail hlen (sel_wf _ hwf) hv hpk
+    obtain ⟨r1, _⟩ := parse_accepted fx c.chosen c.vals c.m0 p tail hlen (sel_wf _ hwf) hv hp
     unfold Call.chosen at r1
     rw [r1]
     simp only
@@ -1070,5 +1082,40 @@ theorem single_str_ok (fx : Fix) (sp : Spec) (hsp : sp.isStr = true) (v : Val) (
     rw [if_neg (by omega), if_neg (by omega)]
     exact ⟨_, rfl⟩
 
+
+
+theorem single_word_ok (fx : Fix) (sp : Spec) (hns : sp.isStr = false) (hst : sp.fmt ≠ .strct)
+    (hsz : sp.size ≤ 32) (w : Nat) (m0 : Mem) :
+    ∃ p, packArgs fx [sp] [.word w] m0 = .ok p := by
+  have hm := maxSize_ge fx
+  have ha : align4 sp.size ≤ 32 := by unfold align4; omega
+  have hst' : packRun fx [sp] [.word w] (St.init m0) =
+      { mem := (St.init m0).mem.blit (4 + 0) (leBytes (align4 sp.size) w), total := 0 + align4 sp.size,
+        stop := false } := by
+    simp only [packRun]
+    have e : packOne fx sp (.word w) (St.init m0) =
+        { mem := (St.init m0).mem.blit (4 + 0) (leBytes (align4 sp.size) w), total := 0 + align4 sp.size,
+          stop := false } := by
+      unfold packOne
+      rw [if_neg (by simp [St.init]), if_neg (by intro h; exact hst h.1), if_neg (by simp [hns]), if_neg hst]
+      rfl
+    rw [e]
+    simp
+  unfold packArgs
+  simp only
+  rw [hst']
+  have hhi := hi_blit_le (St.init m0).mem (4 + 0) (leBytes (align4 sp.size) w)
+  rw [leBytes_length] at hhi
+  have h0 : (St.init m0).mem.hi = 0 := rfl
+  rw [if_neg (by simp only; unfold SLICE; omega), if_neg (by simp only; omega)]
+  exact ⟨_, rfl⟩
+
+theorem sel_single_arg (sp : Spec) (h : 1 ≤ sp.idx) : sel false [sp] = [sp] := by
+  unfold sel Spec.isRet
+  have : (sp.idx == 0) = false := by simp; omega
+  simp [this]
+
+theorem setLow_zero (n x : Nat) : setLow 0 n x = x % 256 ^ n := by
+  unfold setLow; simp
 
 end Uft.Argbuf
